@@ -185,11 +185,19 @@ class Model:
             for e in self.all_effects(bid):
                 if e.kind == "send":
                     op.sends.append((e, bid))
+                    hs_payloads = []
                     if e.variant == "Handshake" and e.payload is not None:
-                        cl = [x for x in walk(e.payload) if x[0] == "agg" and x[1] == "closure" and x[2] in P.bodies and P.bodies[x[2]].is_handler()]
+                        hs_payloads.append(e.payload)
+                    elif e.variant == "UNKNOWN" and e.get("msg") is not None and e.msg[0] == "phi":
+                        # a message built in `let out = match message { .. }`: the Handshake alternative hands the handler over
+                        for alt in e.msg[1]:
+                            sv, pl = send_fields(alt)
+                            if sv == "Handshake" and pl is not None:
+                                hs_payloads.append(pl)
+                    for pl in hs_payloads:
                         # only the outermost closure of the payload is the handler handed over
-                        if e.payload[0] == "agg" and e.payload[1] == "closure":
-                            sub.setdefault(e.payload[2], []).append((e, bid))
+                        if pl[0] == "agg" and pl[1] == "closure":
+                            sub.setdefault(pl[2], []).append((e, bid))
         roots = [h for h in handlers if h not in sub]
         for h in handlers:
             if h in sub:
